@@ -68,85 +68,103 @@ static int supported(int cls, int type)
 	return cls <= 3 && (type < 0x18 || (type >= 0x40 && type < 0x48));
 }
 
+struct rx_state { struct rx_slot *cur; int cur_cls, cur_type, xds_mode; };
+
+static void ref_reset(struct rx_state *st)
+{
+	memset(slots, 0, sizeof slots);
+	memset(st, 0, sizeof *st);
+}
+
+/* One byte pair.  Returns 1 and fills *d when a packet is delivered by this pair. */
+static int ref_step(struct rx_state *st, int i, int quirk, struct delivery *d)
+{
+	uint8_t a = stream[i].b[0], b = stream[i].b[1];
+	int c1 = a & 0x7f, c2 = b & 0x7f;
+	struct rx_slot *cur = st->cur;
+	if (quirk == 2) {
+		/* Framing as the service decoder applies it (the statement's delivery clause is about the
+		 * demultiplexer; for the announcement clause we take the service decoder's notion of
+		 * "received packet" as given): a caption control code suspends XDS *data* but an End code
+		 * still closes the suspended packet without a Continue; stuffing (first byte NUL) is
+		 * skipped before the parity test; parity errors outside XDS mode do not touch XDS state. */
+		if (par_ok(a) && c1 == 0) return 0;
+		if (par_ok(a) && c1 >= 0x10 && c1 <= 0x1F) { st->xds_mode = 0; return 0; }
+		if (par_ok(a) && c1 >= 1 && c1 <= 0x0F) st->xds_mode = (c1 != 0x0F);
+		else if (!st->xds_mode) return 0;
+	}
+	if (!par_ok(a) || !par_ok(b)) {
+		if (cur) { memset(cur, 0, sizeof *cur); }
+		st->cur = NULL;
+		return 0;
+	}
+	if (c1 == 0) return 0;              /* stuffing */
+	if (c1 >= 1 && c1 <= 0x0E) {
+		int cls = (c1 - 1) >> 1;
+		struct rx_slot *s = &slots[cls][c2];
+		if (quirk == 1) {
+			if (!supported(cls, c2)) { st->cur = NULL; return 0; }
+			if (c2 >= 0x40) s = &slots[cls][c2 - 0x30];
+		} else if (quirk == 2) { /* service decoder: classes 0-3, types 0x00-0x17 */
+			if (cls > 3 || c2 >= 0x18) { st->cur = NULL; return 0; }
+		}
+		if (c1 & 1) {
+			memset(s, 0, sizeof *s);
+			s->started = 1;
+			s->sum = (unsigned)(c1 + c2);
+			st->cur = s; st->cur_cls = cls; st->cur_type = c2;
+		} else if (s->started) {
+			st->cur = s; st->cur_cls = cls; st->cur_type = c2;
+		} else {
+			st->cur = NULL;
+		}
+		return 0;
+	}
+	if (c1 == 0x0F) {
+		int r = 0;
+		if (!cur) return 0;
+		cur->sum += (unsigned)(c1 + c2);
+		if (0 == (cur->sum & 0x7f) && cur->len > 0 && !cur->overflow) {
+			d->cls = st->cur_cls; d->type = st->cur_type; d->len = cur->len; d->at = i;
+			memcpy(d->data, cur->data, (size_t)cur->len);
+			r = 1;
+		}
+		memset(cur, 0, sizeof *cur);
+		st->cur = NULL;
+		return r;
+	}
+	if (c1 <= 0x1F) { st->cur = NULL; return 0; }   /* caption control: suspends XDS */
+	/* payload */
+	if (!cur) return 0;
+	if (cur->len >= 32) {               /* more than 32 bytes: never delivered */
+		memset(cur, 0, sizeof *cur);
+		st->cur = NULL;
+		return 0;
+	}
+	cur->data[cur->len++] = (uint8_t)c1;
+	cur->sum += (unsigned)c1;
+	if (c2) {
+		if (cur->len >= 32) {       /* 33rd byte */
+			memset(cur, 0, sizeof *cur);
+			st->cur = NULL;
+			return 0;
+		}
+		cur->data[cur->len++] = (uint8_t)c2;
+		cur->sum += (unsigned)c2;
+	}
+	return 0;
+}
+
 static void ref_receive(int quirk)
 {
-	struct rx_slot *cur = NULL;
-	int cur_cls = 0, cur_type = 0, i, xds_mode = 0;
-	memset(slots, 0, sizeof slots);
+	struct rx_state st;
+	struct delivery d;
+	int i;
+	ref_reset(&st);
 	n_expect = 0;
-	for (i = 0; i < n_stream; i++) {
-		uint8_t a = stream[i].b[0], b = stream[i].b[1];
-		int c1 = a & 0x7f, c2 = b & 0x7f;
-		if (quirk == 2) {
-			/* Framing as the service decoder applies it (the statement's delivery clause is about the
-			 * demultiplexer; for the announcement clause we take the service decoder's notion of
-			 * "received packet" as given): a caption control code suspends XDS *data* but an End code
-			 * still closes the suspended packet without a Continue; stuffing (first byte NUL) is
-			 * skipped before the parity test; parity errors outside XDS mode do not touch XDS state. */
-			if (par_ok(a) && c1 == 0) continue;
-			if (par_ok(a) && c1 >= 0x10 && c1 <= 0x1F) { xds_mode = 0; continue; }
-			if (par_ok(a) && c1 >= 1 && c1 <= 0x0F) xds_mode = (c1 != 0x0F);
-			else if (!xds_mode) continue;
-		}
-		if (!par_ok(a) || !par_ok(b)) {
-			if (cur) { memset(cur, 0, sizeof *cur); }
-			cur = NULL;
-			continue;
-		}
-		if (c1 == 0) continue;              /* stuffing */
-		if (c1 >= 1 && c1 <= 0x0E) {
-			int cls = (c1 - 1) >> 1;
-			struct rx_slot *s = &slots[cls][c2];
-			if (quirk == 1) {
-				if (!supported(cls, c2)) { cur = NULL; continue; }
-				if (c2 >= 0x40) s = &slots[cls][c2 - 0x30];
-			} else if (quirk == 2) { /* service decoder: classes 0-3, types 0x00-0x17 */
-				if (cls > 3 || c2 >= 0x18) { cur = NULL; continue; }
-			}
-			if (c1 & 1) {
-				memset(s, 0, sizeof *s);
-				s->started = 1;
-				s->sum = (unsigned)(c1 + c2);
-				cur = s; cur_cls = cls; cur_type = c2;
-			} else if (s->started) {
-				cur = s; cur_cls = cls; cur_type = c2;
-			} else {
-				cur = NULL;
-			}
-			continue;
-		}
-		if (c1 == 0x0F) {
-			if (!cur) continue;
-			cur->sum += (unsigned)(c1 + c2);
-			if (0 == (cur->sum & 0x7f) && cur->len > 0 && !cur->overflow && n_expect < 256) {
-				struct delivery *d = &expect[n_expect++];
-				d->cls = cur_cls; d->type = cur_type; d->len = cur->len; d->at = i;
-				memcpy(d->data, cur->data, (size_t)cur->len);
-			}
-			memset(cur, 0, sizeof *cur);
-			cur = NULL;
-			continue;
-		}
-		if (c1 <= 0x1F) { cur = NULL; continue; }   /* caption control: suspends XDS */
-		/* payload */
-		if (!cur) continue;
-		if (cur->len >= 32) {               /* more than 32 bytes: never delivered */
-			memset(cur, 0, sizeof *cur);
-			cur = NULL;
-			continue;
-		}
-		cur->data[cur->len++] = (uint8_t)c1;
-		cur->sum += (unsigned)c1;
-		if (c2) {
-			if (cur->len >= 32) {       /* 33rd byte */
-				memset(cur, 0, sizeof *cur);
-				cur = NULL;
-				continue;
-			}
-			cur->data[cur->len++] = (uint8_t)c2;
-			cur->sum += (unsigned)c2;
-		}
-	}
+	for (i = 0; i < n_stream; i++)
+		if (ref_step(&st, i, quirk, &d) && n_expect < 256)
+			expect[n_expect++] = d;
 }
 
 /* ---------------- consumers ---------------- */
@@ -327,7 +345,9 @@ static void service_decoder_monitor(void)
 {
 	vbi_decoder *vbi;
 	double t = 1000.0;
-	int i, k, nd = 0;
+	int i, k, networks_announced = 0;
+	struct rx_state st;
+	struct delivery dcur;
 	struct pi_dec last[2][8], prev_same;      /* latest valid decode per class/type */
 	int have_last[2][8];
 	char net_name_prev[40] = "", net_name_last[40] = "", net_call_last[40] = "";
@@ -343,12 +363,15 @@ static void service_decoder_monitor(void)
 		struct pi_dec a, b;
 		pi_decode(&a, expect[0].type, expect[0].data, expect[0].len);
 		pi_decode(&b, expect[1].type, expect[1].data, expect[1].len);
-		if (pi_dec_equal(&a, &b) && !(expect[0].type == 3 && !a.str[0])) first_pair_repeat_expected = expect[1].at;
+		/* completeness only for byte-identical packets (no tolerance needed then) */
+		if (pi_dec_equal(&a, &b) && expect[0].len == expect[1].len && 0 == memcmp(expect[0].data, expect[1].data, (size_t)expect[0].len)
+		    && !(expect[0].type == 3 && !a.str[0])) first_pair_repeat_expected = expect[1].at;
 	}
 
 	vf_phase("vbi_decode");
 	vbi = vbi_decoder_new();
 	if (!vbi) { vf_fail("harness:alloc", "vbi_decoder_new failed"); return; }
+	ref_reset(&st);
 	n_prog_info = n_network = n_aspect = 0;
 	vbi_event_handler_register(vbi, VBI_EVENT_PROG_INFO | VBI_EVENT_NETWORK | VBI_EVENT_NETWORK_ID | VBI_EVENT_ASPECT | VBI_EVENT_CAPTION, ev_handler, NULL);
 	for (i = 0; i < n_stream; i++) {
@@ -361,8 +384,18 @@ static void service_decoder_monitor(void)
 		ev_n_pi = ev_n_net = ev_n_netid = 0;
 		vbi_decode(vbi, sl, 2, t);
 		t += 1 / 29.97;
-		while (nd < n_expect && expect[nd].at < i) nd++;
-		if (nd < n_expect && expect[nd].at == i) d = &expect[nd];
+		if (ref_step(&st, i, 2, &dcur)) d = &dcur;
+		if (ev_n_net) {
+			/* A second or later network identification is a channel switch: the decoder documents
+			 * that it then resets caption/XDS state and programme information, so packets in
+			 * flight are lost and earlier packets no longer count for the repeat rule. */
+			if (networks_announced > 0) {
+				ref_reset(&st);
+				memset(have_last, 0, sizeof have_last);
+				vf_count("channel_switch_resets_modelled", 1);
+			}
+			networks_announced++;
+		}
 
 		if (ev_n_pi && (!d || d->cls > 1)) {
 			vf_fail("model:C09:prog-info-without-packet", "VBI_EVENT_PROG_INFO raised at pair %d where no class 0/1 packet completed (%s)", i,
@@ -374,6 +407,7 @@ static void service_decoder_monitor(void)
 			continue;
 		}
 		if (!d) continue;
+		vf_log("  pair %d: service decoder completes class %d type 0x%02x len %d; events pi=%d net=%d\n", i, d->cls, d->type, d->len, ev_n_pi, ev_n_net);
 
 		if (d->cls <= 1 && monitored_type(d->type)) {
 			struct pi_dec dec;
